@@ -192,6 +192,24 @@ def slot_holds_by_invariant(m, fn, start, p, slot, node, same, head_o, next_o):
         return False
     names = set(arrivals[0].carried)
     currs = [n for n in names if same(("sym", n), node)]
+    # second form: the loop carries (link, curr) with the invariant curr == *link (link is the address of the slot that holds
+    # curr: &list->head on entry, &curr->next after each step); the slot written is *link
+    for cn in currs:
+        for ln in names - {cn}:
+            if ptr_parts(slot) != (("sym", ln), 0, ()):
+                continue
+            ok = True
+            for q in arrivals:
+                Lk, C = q.carried.get(ln), q.carried.get(cn)
+                if Lk is None or C is None:
+                    ok = False
+                    break
+                C = strip_casts(C)
+                if not (C[0] == "ld" and ptr_parts(C[1]) == ptr_parts(strip_casts(Lk))):
+                    ok = False
+                    break
+            if ok:
+                return True
     for cn in currs:
         for pn in names - {cn}:
             # which slot does this segment write?  head slot needs prev == NULL on the path, prev->next needs the slot to be it
